@@ -103,6 +103,8 @@ FAULTS = [
     Fault("constant-as-mnemonic", "meta-type-mismatch", E, "\t[[cm§]] 2", pre=["cm§ = 1"], where="top"),
     Fault("extern-non-symbol", "meta-type-mismatch", E, "\t.extern [[1+2]]"),
     Fault("second-link", "address-conflict", E, "\t[[.link]] 3000", pre=["\t.link 2000"], where="top-after-link"),
+    # a backward '. =' whose target is only known further down: reported when everything else has been laid out
+    Fault("backward-skip-late", "value-out-of-bounds", E, "\tnop\n\t[[.]] = bs§", pre=["\t.link 2000"], post=["bs§ = 600"], where="top-after-link"),
     Fault("missing-include", "io-error", E, "\t[[.include]] /nope§.mac/"),
     Fault("missing-insert", "io-error", E, "\t[[insert_file]] \"nope§.bin\""),
     Fault("word-at-odd-address", "odd-address", E, "\t[[.word]] 2\n\t.even", pre=["\t.even\n\t.byte 1"], where="adjacent"),
